@@ -283,7 +283,8 @@ class DimensionedItem:
 
         dim_from_value = list(arr.shape[1:])
         if self.dimension.value is not None:
-            if dim_from_value != self.dimension.value:
+            # single (non-array) values have an empty shape; their dimension is [1] (the default set at write time)
+            if dim_from_value != self.dimension.value and (dim_from_value or [1]) != self.dimension.value:
                 raise RuntimeError(f"{self}: shape of {value_label} {value} (shape {arr.shape}) does not match "
                                    f"the specified dimensionality: {self.dimension.value}")
         else:
